@@ -80,6 +80,7 @@ T_lc == Text("comment-line", FALSE, <<a, Ws, LC("// M1 \"q")>>)                 
 T_lc2 == Text("comment-line-only", FALSE, <<LC("// #define M2 9")>>)            \* // #define M2 9
 T_bc == Text("comment-block", FALSE, <<a, Ws, BC("/* M1 \" */"), Ws, M1>>)      \* a /* M1 " */ M1
 T_bcm == TextS("comment-block-multiline", FALSE, << <<a, Ws>>, <<Ws, M1>> >>, "bc")  \* a /* c1<nl>c2 */ M1
+T_bcm0 == TextS("comment-block-closed-at-line-start", FALSE, << <<a, Ws>>, <<Ws, M1>> >>, "bc0")  \* a /* c1<nl>*/ M1
 T_cont == TextS("continuation-in-word", FALSE, << <<a, Ws, Id("M")>>, <<one, Ws, b>> >>, "bs")   \* a M\<nl>1 b
 T_contw == TextS("continuation", FALSE, << <<a, Ws>>, <<M1, Semi>> >>, "bs")     \* a \<nl>M1;
 T_plain == Text("plain", FALSE, <<x, Ws, Eq, Ws, y, Ws, Plus, Ws, one, Semi>>)   \* x = y + 1;
@@ -87,7 +88,7 @@ T_plains == Text("plain-string", FALSE, <<Id("hint"), Ws, Str("\"a  b\""), Semi>
 
 DefsFull == {D_M1, D_M1uses, D_M2, D_M2str, D_M1empty, D_F, D_Fstr, D_Fq, D_Fempty, D_G, D_GF, D_Gmix, D_H, D_M1cont, D_M1cmt}
 TextsFull == {T_use, T_usep, T_affix, T_alone, T_call, T_callm, T_nest, T_call2, T_call2n, T_empty1, T_empty2, T_brk, T_par, T_brc,
-              T_sarg, T_sarg2, T_bare, T_call0, T_two, T_str, T_strc, T_lc, T_lc2, T_bc, T_bcm, T_cont, T_contw, T_plain, T_plains}
+              T_sarg, T_sarg2, T_bare, T_call0, T_two, T_str, T_strc, T_lc, T_lc2, T_bc, T_bcm, T_bcm0, T_cont, T_contw, T_plain, T_plains}
 CondsFull == {Ifdef("M1"), Ifndef("M1"), Ifdef("M2"), Ifndef("F"), Else, Endif}
 LinesFull == DefsFull \cup TextsFull \cup CondsFull \cup {Undef("M1"), Undef("M2"), Undef("F")}
 
